@@ -29,6 +29,7 @@ def answer (line : String) : String :=
     | "tocode" => tocodeLine toks
     | "single" => singleLine toks
     | "singleinit" => singleInitLine toks
+    | "eager" => eagerLine toks
     | "reg" => regLine toks
     | "tsa" => tsaLine toks
     | "strip" => stripLine toks
